@@ -33,6 +33,7 @@ CAL = "black_it.calibrator:Calibrator"
 def run(ctx: Context) -> None:
     ctx.rule_any(r1_semantic, r1_monotone)
     ctx.rule(r1_writers)
+    ctx.rule(no_shared_tables)
     v = CalibrateView(ctx.prog)
     ctx.rule(c02.r5_labels, v)
     # one label per recorded sample: labels are written for batch_size samples, so sample() must hand back exactly batch_size rows (C12 shape rules)
@@ -389,6 +390,18 @@ def r4_no_stale_cache(ctx: Context) -> None:
         for x in walk_scope(f2.node):
             if isinstance(x, ast.Assign) and isinstance(x.targets[0], ast.Subscript) and isinstance(x.targets[0].value, ast.Name) and x.targets[0].value.id in consts:
                 ctx.fail("R4.no-stale-cache", f"plot_results.{f2.name}:module-cache:{x.targets[0].value.id}", f"`{src(x)[:70]}` caches checkpoint content in module-level `{x.targets[0].value.id}`", f2, x)
+
+
+def no_shared_tables(ctx: Context) -> None:
+    """One calibrator's id table is its own: nothing in the calibrator module keeps process-wide state (module-level stores, caches handing out an object that is
+    written to later) - the module-state rule of C05 (R2), kept to what it reports in black_it/calibrator.py."""
+    from . import c05
+    before, n_obl = len(ctx.findings), len(ctx.obligations)
+    c05.r2a_global_state(ctx)
+    keep = [f for f in ctx.findings[before:] if "black_it/calibrator.py" in f.where]
+    kept = {f.key for f in keep}
+    ctx.findings[before:] = keep
+    ctx.obligations[n_obl:] = [o for o in ctx.obligations[n_obl:] if o["verdict"] != "violated" or o["key"] in kept]
 
 
 def restored_records_identity(ctx: Context, extra: tuple[str, ...] = ()) -> None:
